@@ -155,10 +155,80 @@ def all_catch_steps(wf):
     return {n['id'] for n, kind, where in walk_nodes(wf) if kind == 'step' and where == 'catch'}
 
 
+def nested_case(rng):
+    """an error inside the steps of a catch, on a task that declares its own catch: the catch-once bookkeeping of the
+    outer (already used) catch must not count for the inner one"""
+    outer_at = rng.choice(['act', 'step'])
+    c1, c2 = rng.sample(CODES, 2)
+    inner_at = rng.choice(['act', 'step', 'none'])
+    inner_on = rng.choice([c2, c2, None, c1])          # matching code, catch-all, or a non-matching code
+    inner_catch = {'steps': [{'id': 'C2', 'acts': [{'id': 'A2', 'uses': MSG, 'key': 'm2'}]}]}
+    if inner_on:
+        inner_catch['on'] = inner_on
+    ac = {'id': 'AC', 'uses': IRQ, 'key': 'kc2'}
+    cstep = {'id': 'C1', 'acts': [ac] + ([{'id': 'AC3', 'uses': MSG, 'key': 'm3'}] if rng.random() < 0.5 else [])}
+    if inner_at == 'act':
+        ac['catches'] = [inner_catch]
+    elif inner_at == 'step':
+        cstep['catches'] = [inner_catch]
+    outer_catch = {'steps': [cstep]}
+    if rng.random() < 0.7:
+        outer_catch['on'] = c1
+    ae = {'id': 'AE', 'uses': IRQ, 'key': 'ke'}
+    se = {'id': 'SE', 'acts': [ae]}
+    (ae if outer_at == 'act' else se)['catches'] = [outer_catch]
+    wf = {'id': 'm1', 'steps': [{'id': 'S0', 'acts': [{'id': 'a0', 'uses': IRQ, 'key': 'k'}]}, se, {'id': 'SN', 'acts': [{'id': 'an', 'uses': IRQ, 'key': 'k'}]}]}
+    caught = inner_at != 'none' and inner_on in (None, c2)
+    exp = {'S0': 'completed', 'a0': 'completed', 'C1': 'completed' if caught else 'error'}
+    if caught:
+        exp.update({'AC': 'completed' if inner_at == 'act' else 'error', 'C2': 'completed', 'A2': 'completed', 'SE': 'completed', 'AE': 'completed' if outer_at == 'act' else 'error', 'SN': 'completed', 'an': 'completed', 'm1': 'completed'})
+    else:
+        exp.update({'AC': 'error', 'SE': 'error', 'AE': 'error', 'm1': 'error'})
+    return wf, {'c1': c1, 'c2': c2, 'outer_at': outer_at, 'inner_at': inner_at, 'inner_on': inner_on, 'caught': caught, 'exp': exp}
+
+
 class ErrorFamily:
     name = 'error'
 
+    def gen_nested(self, rng, idx, opts):
+        wf, n = nested_case(rng)
+        rules = [{'match': {'key': 'ke'}, 'action': 'error', 'options': {'ecode': n['c1'], 'message': 'boom'}},
+                 {'match': {'key': 'kc2'}, 'action': 'error', 'options': {'ecode': n['c2'], 'message': 'again'}},
+                 {'match': {'uses': IRQ}, 'action': 'next', 'times': 1000}]
+        rt = rng.choice([{'flavor': 'current'}, {'flavor': 'current', 'chaos': {'max_yields': 3, 'seed': rng.randrange(1, 1 << 40)}}, {'flavor': 'multi', 'workers': 2, 'chaos': {'max_yields': 3, 'seed': rng.randrange(1, 1 << 40)}}])
+        sc = {'id': '', 'family': 'error', 'sched': rt['flavor'] + '-nested', 'seed': rng.randrange(1 << 30), 'runtime': rt, 'engine': {'store': opts.get('store', 'mem'), 'keep_processes': True}, 'models': [json.dumps(wf)],
+              'responder': {'mode': 'quiescent', 'order': 'fifo', 'rules': rules}, 'ops': [{'op': 'start', 'mid': 'm1', 'vars': {'pid': 'p1'}}, {'op': 'run', 'snap': opts.get('snap', 'live')}, {'op': 'snapshot', 'level': opts.get('snap', 'live')}]}
+        if opts.get('store', 'mem') == 'mem' and rng.random() < opts.get('evict', 0.3):
+            sc['faults'] = {'evict_at': sorted(set(rng.randint(1, 5) for _ in range(rng.randint(1, 2))))}
+            sc['sched'] += '+evict'
+        return {'scenarios': [sc], 'meta': {'wf': wf, 'code': n['c1'], 'source': 'nested', 'nested': n}, 'digest': digest([wf, n['c1'], n['c2']]), 'nontrivial': True}
+
+    def judge_nested(self, c, opts, obs):
+        out = []
+        h, sc, m = c['hist'][0], c['scenarios'][0], c['meta']
+        n, sid = m['nested'], sc['id']
+        tag = f"nested:{n['outer_at']}>{n['inner_at']}:{'caught' if n['caught'] else 'uncaught'}"
+        obs[f'c06.runs:{tag}'] += 1
+        got = {}
+        for t in h.final_tasks().values():
+            got.setdefault(t['nid'], t['state'])
+        cnt = collections.Counter(e['nid'] for e in h.creates)
+        if cnt['C1'] != 1:
+            out.append(V('C06', 'wrong-catch-ran', f"outer:{cnt['C1']}:{tag}", f"outer catch step C1 ran {cnt['C1']} times", scenario=sid))
+        if cnt['C2'] != (1 if n['caught'] else 0):
+            out.append(V('C06', 'wrong-catch-ran', f"inner:{cnt['C2']}:{tag}", f"inner catch step C2 ran {cnt['C2']} times; the error {n['c2']} raised inside the outer catch's steps {'matches' if n['caught'] else 'does not match'} the inner catch (on {n['inner_on']!r} at {n['inner_at']})", scenario=sid))
+        d = {k: (v, got.get(k)) for k, v in n['exp'].items() if got.get(k) != v}
+        if d:
+            out.append(V('C06', 'final-state', f"{tag}:{'|'.join(sorted({f'{e}->{g}' for e, g in d.values()}))[:60]}", f"states differ from the reference (expected, got) {dict(list(d.items())[:6])}", scenario=sid))
+        cbs = [(e['what'], e['state'], (e.get('inputs') or {}).get('ecode')) for e in h.cbs if e['what'] != 'start']
+        want = [('complete', 'completed', None)] if n['caught'] else [('error', 'error', n['c2'])]
+        if cbs != want:
+            out.append(V('C06', 'terminal-event', f"{tag}:{'+'.join(x[0] for x in cbs) or 'none'}", f"expected {want}, got {cbs}", scenario=sid))
+        return out
+
     def gen(self, rng, idx, opts):
+        if rng.random() < opts.get('nested', 0.15):
+            return self.gen_nested(rng, idx, opts)
         source = rng.choice(['action', 'action', 'action', 'script', 'params', 'unknown'])
         g = G(rng)
         wf = g.wf(source)
@@ -184,6 +254,8 @@ class ErrorFamily:
     def judge(self, c, opts, obs):
         out = []
         h, sc, m = c['hist'][0], c['scenarios'][0], c['meta']
+        if m.get('nested'):
+            return self.judge_nested(c, opts, obs)
         wf, code, source = m['wf'], m['code'], m['source']
         sid = sc['id']
         if source != 'action':
